@@ -183,13 +183,16 @@ def chainKeys (maps : List (List (V × V))) : List V :=
   ((maps.flatMap (fun ps => ps.map Prod.fst)).foldl (fun acc k =>
     if acc.any (fun p => cmpV k p.1 == .eq) then acc else insertB k .none acc) []).map Prod.fst
 
-/-- `MergeDict::get_value(key)`: the last operand that has a defined value for the key wins -/
+/-- `MergeDict::get_value(key)`: the last operand that has a defined value for the key wins; a key whose
+    entries all hold undefined values is still found, as undefined (fix 276e6ac; the laws are in `MJ.CollD`) -/
 def chainGet (m : Mode) (maps : List (List (V × V))) (k : V) : Option V :=
-  maps.reverse.findSome? (fun ps =>
-    match getV m ps k with
-    | some .undef => Option.none
-    | some v => some v
-    | Option.none => Option.none)
+  match maps.reverse.findSome? (fun ps =>
+      match getV m ps k with
+      | some .undef => Option.none
+      | some v => some v
+      | Option.none => Option.none) with
+  | some v => some v
+  | Option.none => if maps.any (fun ps => (getV m ps k).isSome) then some .undef else Option.none
 
 /-- `filters::items(map)`: the `(key, value)` tuples in iteration order -/
 def itemsV (ps : List (V × V)) : List V := ps.map (fun p => V.tuple [p.1, p.2])
